@@ -17,6 +17,9 @@ pub struct BlockWriter {
     sbn: u32,
     bytes_left: usize,
     content_length_left: Option<usize>,
+    content_length: Option<usize>,
+    nb_bytes_written: usize,
+    content_discarded: bool,
     cenc: lct::Cenc,
     decoder: Option<Box<dyn Decompress>>,
     buffer: Vec<u8>,
@@ -49,6 +52,9 @@ impl BlockWriter {
             sbn: 0,
             bytes_left: transfer_length,
             content_length_left: content_length,
+            content_length,
+            nb_bytes_written: 0,
+            content_discarded: false,
             cenc,
             decoder: None,
             buffer: Vec::new(),
@@ -62,6 +68,17 @@ impl BlockWriter {
 
     pub fn check_md5(&self, md5: &str) -> bool {
         self.md5.as_ref().map(|m| m.eq(md5)).unwrap_or(true)
+    }
+
+    /// `true` if no Content-Length is announced
+    /// or if exactly the announced number of bytes has been written
+    pub fn check_content_length(&self) -> bool {
+        match self.content_length {
+            Some(content_length) => {
+                content_length == self.nb_bytes_written && !self.content_discarded
+            }
+            None => true,
+        }
     }
 
     pub fn get_md5(&self) -> Option<&str> {
@@ -133,7 +150,9 @@ impl BlockWriter {
         if let Some(ctx) = self.md5_context.as_mut() {
             ctx.consume(data)
         }
-        writer.write(self.sbn, data, now)
+        writer.write(self.sbn, data, now)?;
+        self.nb_bytes_written += data.len();
+        Ok(())
     }
 
     fn decode_write_pkt(
@@ -186,6 +205,7 @@ impl BlockWriter {
             if self.content_length_left == Some(0) {
                 // The announced content has been written,
                 // keep draining the decoder (trailer) so that its input buffer never fills up
+                self.content_discarded = true;
                 continue;
             }
 
@@ -194,6 +214,7 @@ impl BlockWriter {
             }
 
             writer.write(self.sbn, &self.buffer[..size], now)?;
+            self.nb_bytes_written += size;
 
             if let Some(content_length_left) = self.content_length_left.as_mut() {
                 *content_length_left = content_length_left.saturating_sub(size);
